@@ -27,6 +27,7 @@ type CfgSpec struct {
 type Universe struct {
 	Name  string    `json:"name"`
 	Route string    `json:"route"` // "query": InsertEonPublicKey; "dkg": smobserver finalizeDKG
+	Via   string    `json:"via"`   // "" : a tick is one call of the tick body; "loop": a tick is a run of the real polling loop
 	Eons  []EonSpec `json:"eons"`
 	Cfgs  []CfgSpec `json:"cfgs"`
 	Seed  int64     `json:"seed"`
@@ -180,6 +181,8 @@ func memberEons(n int, cfgOf func(i int) int, sameAct bool) []EonSpec {
 //	        without eons row, an eon whose config row is missing (conformance of the SQL joins and of the
 //	        membership test; such ticks are outside the property)
 //	dkg   : the outgoing keys are written by the real smobserver finalizeDKG (single-keyper sets)
+//	loop  : every tick is a run of the REAL polling loop (eonPubKeyHandler.loop, shortened ticker) against a
+//	        mechanism that takes one key at a time and is slower than the ticker, until the loop is quiescent
 func Plans(thorough bool, seed int64) []Plan {
 	allModes := []string{"Broadcast", "Callback", "Both", "Neither"}
 	two := []string{"Broadcast", "Callback"}
@@ -194,6 +197,8 @@ func Plans(thorough bool, seed int64) []Plan {
 			{Idx: 3, Exists: true, Member: false}, {Idx: 5, Exists: false, Member: false}}}
 	dkg := &Universe{Name: "dkg", Route: "dkg",
 		Cfgs: []CfgSpec{{Idx: 1, Exists: true, Member: true}, {Idx: 2, Exists: true, Member: true}}}
+	loop := &Universe{Name: "loop", Route: "query", Via: "loop",
+		Cfgs: []CfgSpec{{Idx: 1, Exists: true, Member: true}, {Idx: 2, Exists: true, Member: true}}}
 	odd := []EonSpec{{Num: 8, HasRow: true, C: 4, Act: 30}, {Num: 9, HasRow: false, C: 1, Act: 0}, {Num: 10, HasRow: true, C: 5, Act: 31}}
 	var plans []Plan
 	if thorough {
@@ -201,7 +206,9 @@ func Plans(thorough bool, seed int64) []Plan {
 		faults.Eons = memberEons(4, func(i int) int { return 1 + i%2 }, false)
 		sets.Eons = append(memberEons(4, func(i int) int { return []int{1, 2, 2, 3}[i-1] }, true), odd...)
 		dkg.Eons = memberEons(4, func(i int) int { return 1 + (i+1)%2 }, true)
+		loop.Eons = memberEons(4, func(i int) int { return 1 + i%2 }, true)
 		plans = []Plan{
+			{U: loop, Modes: two, InsertKinds: []string{"member"}, MaxPending: 4, MaxTicks: 2, Faults: none},
 			{U: one, Modes: two, InsertKinds: []string{"member"}, MaxPending: 4, MaxTicks: 3, Faults: none},
 			{U: faults, Modes: allModes, InsertKinds: []string{"member"}, MaxPending: 4, MaxTicks: 2, Faults: []string{"sqlerr", "refuse"}},
 			{U: sets, Modes: allModes, InsertKinds: all3, MaxPending: 3, MaxTicks: 2, Faults: []string{"refuse"}},
@@ -212,7 +219,9 @@ func Plans(thorough bool, seed int64) []Plan {
 		faults.Eons = memberEons(3, func(i int) int { return 1 + i%2 }, false)
 		sets.Eons = append(memberEons(3, func(i int) int { return []int{1, 2, 3}[i-1] }, true), odd...)
 		dkg.Eons = memberEons(3, func(i int) int { return 1 + (i+1)%2 }, true)
+		loop.Eons = memberEons(3, func(i int) int { return 1 + i%2 }, true)
 		plans = []Plan{
+			{U: loop, Modes: two, InsertKinds: []string{"member"}, MaxPending: 3, MaxTicks: 2, Faults: none},
 			{U: one, Modes: two, InsertKinds: []string{"member"}, MaxPending: 4, MaxTicks: 2, Faults: none},
 			{U: faults, Modes: allModes, InsertKinds: []string{"member"}, MaxPending: 3, MaxTicks: 2, Faults: []string{"sqlerr", "refuse"}},
 			{U: sets, Modes: two, InsertKinds: all3, MaxPending: 3, MaxTicks: 2, Faults: none},
